@@ -170,4 +170,22 @@ theorem alGet_none_not_mem {β : Type} (m : List (Str × β)) (k : Str) (h : alG
 
 end
 
+/-- `find_owner` returns an owner that is registered -/
+theorem findOwner_mem (w : WTypes) (owners : List (WAny × (Owner × Str))) :
+    ∀ (fuel : Nat) (a : WAny) (o : Owner × Str), findOwner w owners fuel a = some o →
+      ∃ a', lookup owners a' = some o := by
+  intro fuel
+  induction fuel with
+  | zero => intro a o h; simp [findOwner] at h
+  | succ n ih =>
+    intro a o h
+    simp only [findOwner] at h
+    split at h
+    · rename_i o' ho
+      cases h
+      exact ⟨a, ho⟩
+    · split at h
+      · exact ih _ _ h
+      · cases h
+
 end Wac.Decode
